@@ -14,6 +14,13 @@ def gen_enum(rnd, i):
 def gen_msg(rnd, depth, i):
     m = dict(nm(rnd.choice(['M', 'Msg', 'm_x', 'N']) + str(i)), fields=[nm(f'f{j}') for j in range(rnd.randint(0, 2))],
              oneofs=[nm('o')] if rnd.random() < 0.3 else [], enums=[gen_enum(rnd, i)] if rnd.random() < 0.4 else [], nested=[])
+    # proto3 `optional` fields: each gets a synthetic oneof `_<field>`, listed after the real oneofs (as protoc does)
+    if m['fields'] and rnd.random() < 0.35:
+        if rnd.random() < 0.5 and not m['oneofs']:
+            m['oneofs'] = [nm('kind')]
+        for f in m['fields'][:rnd.randint(1, len(m['fields']))]:
+            f['opt'] = True
+            m['oneofs'].append(nm('_' + f['name']))
     if depth > 0:
         m['nested'] = [gen_msg(rnd, depth - 1, 10 * i + j) for j in range(rnd.randint(0, 2))]
     return m
